@@ -108,7 +108,7 @@ type Layout struct {
 	// Boundary >= 0: inject one trivia block at exactly this token boundary
 	// (counted over the whole text); used for the one-boundary-at-a-time sweep
 	Boundary int
-	Indent   string // "" = two spaces
+	Indent   string // "" = two spaces, "none" = no indentation
 	CRLF     bool
 
 	boundaryCtr int
@@ -414,6 +414,8 @@ func (r *renderer) stmt(s *Stmt, depth int) {
 	ind := r.lay.Indent
 	if ind == "" {
 		ind = "  "
+	} else if ind == "none" {
+		ind = "" // every statement starts in column 0
 	}
 	r.write(strings.Repeat(ind, depth))
 	r.boundary(false)
